@@ -245,6 +245,10 @@ func linuxSpuriousSig(diffLine string) string {
 	}
 	isNum := func(s string) bool { _, err := strconv.Atoi(s); return err == nil }
 	switch {
+	case body == "options: <->-m":
+		// device prints "-m state ... -m tcp --dport N" for a target written
+		// "-m state ... --dport N": the tool keeps one "-m" per rule
+		return "linux:F36-match-before-implicit-protocol-match-hides-m-option"
 	case body == "options: --tcp-flags<->--syn":
 		// device prints "--tcp-flags FIN,SYN,RST,ACK SYN" for a positive --syn
 		return "linux:F31-positive-syn-printed-as-tcp-flags-not-recognised"
